@@ -314,12 +314,29 @@ func c13_2(c *core.Ctx, p *core.Prog) {
 			c.Viol(key, p.Pos(scan.Pos()), core.FuncName(scan), "the dictionary scan has no arm for "+kind+": dictionaries nested under such a column are never measured and can outgrow their index width and the configured limit")
 			continue
 		}
-		n := 0
+		// the recursive calls of the arm: in the arm itself, or in a helper of the package that the arm calls
+		// and that calls the scan back (one helper per composite kind)
+		var recs []*ssa.Call
 		core.EachInstr(scan, func(i ssa.Instruction) {
-			if cl, ok := i.(*ssa.Call); ok && cl.Call.StaticCallee() == scan && core.GuardedBy(iff, true, cl) {
-				n++
+			cl, ok := i.(*ssa.Call)
+			if !ok || !core.GuardedBy(iff, true, cl) {
+				return
 			}
+			h := cl.Call.StaticCallee()
+			if h == scan {
+				recs = append(recs, cl)
+				return
+			}
+			if h == nil || h.Blocks == nil || core.FnPkgPath(h) != pkgBuilder {
+				return
+			}
+			core.EachInstr(h, func(j ssa.Instruction) {
+				if c2, ok := j.(*ssa.Call); ok && c2.Call.StaticCallee() == scan {
+					recs = append(recs, c2)
+				}
+			})
 		})
+		n := len(recs)
 		want := 1
 		if kind == "MapType" {
 			want = 2
@@ -328,46 +345,45 @@ func c13_2(c *core.Ctx, p *core.Prog) {
 			fmt.Sprintf("the %s arm of the dictionary scan recurses %d time(s), expected at least %d: some children are never measured", kind, n, want))
 		// children visited in a loop: field i is paired with child i, for every i
 		if kind == "StructType" || kind == "UnionType" {
-			core.EachInstr(scan, func(i ssa.Instruction) {
-				cl, ok := i.(*ssa.Call)
-				if !ok || cl.Call.StaticCallee() != scan || !core.GuardedBy(iff, true, cl) {
-					return
-				}
-				fAcc, ok := core.ElemAccessOf(firstElem(cl.Call.Args[1]))
-				if !ok || fAcc.Phi == nil {
-					c.Undecided(key+"|pairing", p.Pos(cl.Pos()), core.FuncName(scan), "the child field handed to the recursive scan is not an element of a field list indexed by a loop variable")
-					return
-				}
-				var child *ssa.Call
-				core.BackSlice(cl.Call.Args[2], func(v ssa.Value) bool {
-					if c2, ok := v.(*ssa.Call); ok && child == nil && len(core.CallArgs(c2)) >= 1 {
-						if f := core.CalleeObj(c2); f != nil && f.Name() == "Field" {
-							child = c2
-							return false
+			for _, cl := range recs {
+				cl := cl
+				func() {
+					fAcc, ok := core.ElemAccessOf(firstElem(cl.Call.Args[1]))
+					if !ok || fAcc.Phi == nil {
+						c.Undecided(key+"|pairing", p.Pos(cl.Pos()), core.FuncName(scan), "the child field handed to the recursive scan is not an element of a field list indexed by a loop variable")
+						return
+					}
+					var child *ssa.Call
+					core.BackSlice(cl.Call.Args[2], func(v ssa.Value) bool {
+						if c2, ok := v.(*ssa.Call); ok && child == nil && len(core.CallArgs(c2)) >= 1 {
+							if f := core.CalleeObj(c2); f != nil && f.Name() == "Field" {
+								child = c2
+								return false
+							}
+						}
+						return child == nil
+					})
+					if child == nil {
+						c.Undecided(key+"|pairing", p.Pos(cl.Pos()), core.FuncName(scan), "the child column handed to the recursive scan is not taken with Field(i)")
+						return
+					}
+					args := core.CallArgs(child)
+					idx := core.StripConv(args[len(args)-1])
+					// both indices in the form φ + c (a range loop counts from -1 and uses φ+1)
+					iphi, ioff, iok := core.AffineIn(idx)
+					same := iok && iphi == fAcc.Phi && ioff == fAcc.Off
+					msg := fmt.Sprintf("the %s arm pairs child field i with child column i", kind)
+					bad := fmt.Sprintf("the %s arm pairs child field i with the child column at a different position (%s): the dictionary of a child is measured against the wrong column or not at all", kind, idx.String())
+					if same {
+						if ind, ok := core.InductionOf(fAcc.Phi); ok {
+							if lo, hi, ok := ind.Coverage(fAcc); !ok || lo > 0 || hi < 0 {
+								same, bad = false, fmt.Sprintf("the %s arm does not visit every child", kind)
+							}
 						}
 					}
-					return child == nil
-				})
-				if child == nil {
-					c.Undecided(key+"|pairing", p.Pos(cl.Pos()), core.FuncName(scan), "the child column handed to the recursive scan is not taken with Field(i)")
-					return
-				}
-				args := core.CallArgs(child)
-				idx := core.StripConv(args[len(args)-1])
-				// both indices in the form φ + c (a range loop counts from -1 and uses φ+1)
-				iphi, ioff, iok := core.AffineIn(idx)
-				same := iok && iphi == fAcc.Phi && ioff == fAcc.Off
-				msg := fmt.Sprintf("the %s arm pairs child field i with child column i", kind)
-				bad := fmt.Sprintf("the %s arm pairs child field i with the child column at a different position (%s): the dictionary of a child is measured against the wrong column or not at all", kind, idx.String())
-				if same {
-					if ind, ok := core.InductionOf(fAcc.Phi); ok {
-						if lo, hi, ok := ind.Coverage(fAcc); !ok || lo > 0 || hi < 0 {
-							same, bad = false, fmt.Sprintf("the %s arm does not visit every child", kind)
-						}
-					}
-				}
-				c.Check(same, key+"|pairing", p.Pos(cl.Pos()), core.FuncName(scan), msg, bad)
-			})
+					c.Check(same, key+"|pairing", p.Pos(cl.Pos()), core.FuncName(scan), msg, bad)
+				}()
+			}
 		}
 	}
 	// leaf: cardinality = length of the dictionary
@@ -447,6 +463,26 @@ func c13_2(c *core.Ctx, p *core.Prog) {
 		fmt.Sprintf("%d of %d dictionary fields created by the transform do not carry the dictionary-id metadata the scan looks up: their dictionaries are never measured", bad, n))
 }
 
+// helperCallSites: for an unexported package-level function, the number of its static call sites in the
+// repository (a construct inside such a helper stands for that many uses); 1 otherwise.
+func helperCallSites(p *core.Prog, fn *ssa.Function) int {
+	if fn.Signature.Recv() != nil || fn.Parent() != nil || fn.Object() == nil || fn.Object().Exported() {
+		return 1
+	}
+	n := 0
+	if nd := p.CHA().Nodes[fn]; nd != nil {
+		for _, e := range nd.In {
+			if e.Site != nil && e.Site.Common().StaticCallee() == fn && e.Caller.Func.Pkg == fn.Pkg {
+				n++
+			}
+		}
+	}
+	if n < 1 {
+		return 1
+	}
+	return n
+}
+
 func c13_3(c *core.Ctx, p *core.Prog) {
 	n := 0
 	for _, fn := range rootFuncs(c, p) {
@@ -486,6 +522,7 @@ func c13_3(c *core.Ctx, p *core.Prog) {
 				msgs = append(msgs, "the record builder does not use the configured allocator (Pool)")
 			}
 			c.Check(len(msgs) == 0, key, pos, core.FuncName(fn), "configured limit, threshold and allocator reach this record builder", strings.Join(msgs, "; "))
+			c.LastCovers(helperCallSites(p, fn))
 		})
 	}
 }
